@@ -29,6 +29,7 @@ type Engine struct {
 	invariants []*InvariantDecl
 	guarded    []*GuardedDecl
 	lemmas     []*LemmaDecl
+	globals    []*GlobalFact
 	modsets   map[*ssa.Function]*ModSet
 	modInProgress map[*ssa.Function]bool
 	immGlobals map[*ssa.Global]int // 0 unknown, 1 immutable, 2 mutable
@@ -163,6 +164,7 @@ func (e *Engine) addFile(cf *ContractFile) {
 		}
 	}
 	e.lemmas = append(e.lemmas, cf.Lemmas...)
+	e.globals = append(e.globals, cf.Globals...)
 }
 
 func (e *Engine) ContractErrors() []string {
@@ -289,6 +291,14 @@ func (e *Engine) ghostField(pkg, name string, base Value) *GhostDecl {
 	}
 	var bt types.Type
 	switch b := base.(type) {
+	case SliceV:
+		// ghost fields of slice-typed values are keyed by the backing array; owner is matched by name only
+		for _, g := range cands {
+			if strings.HasPrefix(g.Owner, "[]") || g.Owner == "net.IP" {
+				return g
+			}
+		}
+		return nil
 	case Scalar:
 		bt = b.Typ
 	case PlaceV:
@@ -702,6 +712,9 @@ func storeKey(addr ssa.Value) (key string, local *ssa.Alloc, ok bool) {
 		case *ssa.Alloc:
 			et := x.Type().(*types.Pointer).Elem()
 			_, isArr := et.Underlying().(*types.Array)
+			if isArr && !x.Heap && !arrayElementsUsed(x) {
+				isArr = false
+			}
 			if !x.Heap && !isArr {
 				return "", x, true
 			}
@@ -831,6 +844,14 @@ func (e *Engine) callMod(ms *ModSet, caller *ssa.Function, c *ssa.CallCommon) {
 
 func (e *Engine) fnMod(ms *ModSet, fn *ssa.Function) {
 	full := fn.String()
+	if fn.Synthetic == "package initializer" && fn.Pkg != nil {
+		// a package initialiser writes the package-level variables of its own package (and of the packages it
+		// initialises in turn, which do not depend on the caller's package)
+		parts := strings.Split(fn.Pkg.Pkg.Path(), "/")
+		ms.keys["G!"+parts[len(parts)-1]] = true
+		ms.allocs = true
+		return
+	}
 	switch full {
 	case "(*sync.Mutex).Lock", "(*sync.RWMutex).Lock", "(*sync.RWMutex).RLock", "(*sync.Mutex).Unlock", "(*sync.RWMutex).Unlock", "(*sync.RWMutex).RUnlock":
 		// taking a lock lets other threads' updates of the protected components become visible
@@ -982,6 +1003,21 @@ func (e *Engine) protectKeys(inv *InvariantDecl) []string {
 			}
 		default:
 			out = append(out, "O!"+typeKey(t)+"."+p)
+			// a protected slice / map field protects its elements / entries as well
+			if st, ok := t.Underlying().(*types.Struct); ok {
+				for i := 0; i < st.NumFields(); i++ {
+					if st.Field(i).Name() != p {
+						continue
+					}
+					switch ft := st.Field(i).Type().Underlying().(type) {
+					case *types.Slice:
+						out = append(out, "E!"+typeKey(ft.Elem()))
+					case *types.Map:
+						k := typeKey(ft.Key()) + "!" + typeKey(ft.Elem())
+						out = append(out, "MH!"+k, "MV!"+k, "ML!"+k)
+					}
+				}
+			}
 		}
 	}
 	return out
